@@ -263,7 +263,7 @@ class ConsumerMdibMethods:
 
         devices_context_state_handles = [s.Handle for s in context_state_containers]
         with self._mdib.context_states.lock:
-            for obj in self._mdib.context_states.objects:
+            for obj in list(self._mdib.context_states.objects):  # removal changes the table that is iterated
                 if obj.Handle not in devices_context_state_handles:
                     self._mdib.context_states.remove_object_no_lock(obj)
 
